@@ -138,7 +138,10 @@ def _one(case, lines, outs, i, line, o, ln, v, c, r, model, inverse, seen_styles
     cls.append("class-" + c)
     if True:
         if c == "j9":
-            sid = J.decode(v)
+            try:
+                sid = J.decode(v)
+            except ValueError:
+                sid = v  # a $9$-shaped string the decoder refuses is a secret of its own
             try:
                 pid = J.decode(r)
             except ValueError:
@@ -200,6 +203,9 @@ def _case(draw, max_lines=30):
         if c == "j9":
             plain = draw(st.one_of(S.text_value(max_size=10, alphabet_mid=S.TEXT_END), S.numeric_value(), S.hex_value()))
             pool.append({"cls": "j9", "plain": plain})
+            if draw(st.integers(0, 5)) == 0:
+                # a $9$-shaped secret the decoder refuses: a secret of its own, followed by others in the run
+                pool.append({"cls": "j9", "value": draw(S.j9_value(damaged=True))})
             if draw(st.integers(0, 4)) == 0:
                 # a $9$ plaintext with a Latin-1 character, and the different secret whose character is 128
                 # lower (both only ever written as $9$ strings: clear non-ASCII secrets are outside the domain)
@@ -231,20 +237,20 @@ def _case(draw, max_lines=30):
             lines.append({"text": draw(st.sampled_from(["interface Gi0/1", " description uplink", "!", "ip address 10.1.2.3 255.255.255.0", "", "router bgp 65001", " shutdown"]))})
             continue
         p = draw(st.sampled_from(pool)) if not big or len(lines) >= len(pool) else pool[len(lines)]
-        if p["cls"] == "j9":
+        if p["cls"] == "j9" and "plain" in p:
             if draw(st.integers(0, 3)) == 0 and p["plain"].isascii():
                 v = p["plain"]
                 c = sorted(S.classify(v) - {"hex"} or {"hex"})[0] if S.classify(v) != {"text"} else "text"
                 c = "numeric" if v.isdigit() else ("hex" if S.classify(v) == {"hex"} else ("type7" if "type7" in S.classify(v) else "text"))
             else:
-                v = draw(S.j9_value(plain=p["plain"]))
+                v = draw(S.j9_value(plain=p["plain"], damaged=False))
                 c = "j9"
         else:
             v, c = p["value"], p["cls"]
         if draw(st.integers(0, 6)) == 0:
             # two different pool members on one line (forms with two secret slots)
             p2 = draw(st.sampled_from(pool))
-            v2 = draw(S.j9_value(plain=p2["plain"])) if p2["cls"] == "j9" else p2["value"]
+            v2 = draw(S.j9_value(plain=p2["plain"], damaged=False)) if p2["cls"] == "j9" and "plain" in p2 else p2["value"]
             form = draw(st.sampled_from(_FORMS2))
             c2 = p2["cls"]
             if "exact" in form.text_kw:
